@@ -52,6 +52,7 @@ structure Inv (s : State) : Prop where
   r5ne : s.cpc = .r5 → s.buf ≠ []
   sigIdle : s.ppc = .idle → s.signalled = s.arrived.length
   sigMid : s.ppc = .appended → s.signalled + 1 = s.arrived.length
+  sigLe : s.signalled ≤ s.arrived.length
   seenEq : s.cpc.inLoop = true → s.returned.length = s.seen
   seenLe : s.seen ≤ s.arrived.length
   unsig : s.cpc.preInput = true → s.iev = false → s.signalled ≤ s.returned.length
@@ -66,8 +67,18 @@ structure Inv (s : State) : Prop where
   logOK : LogOK s.log
 
 theorem inv_init : Inv init := by
-  refine ⟨?_, ?_, ?_, ?_, ?_, ?_, ?_, ?_, ?_, ?_, ?_, ?_, ?_, ?_, ?_, ?_, ?_⟩ <;>
+  refine ⟨?_, ?_, ?_, ?_, ?_, ?_, ?_, ?_, ?_, ?_, ?_, ?_, ?_, ?_, ?_, ?_, ?_, ?_⟩ <;>
     simp [init, CPc.inLoop, CPc.preInput, CPc.readsConn, CPc.waitsConn, LogOK.nil]
+
+macro "inv_fields" : tactic =>
+  `(tactic| refine ⟨?_, ?_, ?_, ?_, ?_, ?_, ?_, ?_, ?_, ?_, ?_, ?_, ?_, ?_, ?_, ?_, ?_, ?_⟩)
+
+macro "inv_auto" : tactic => `(tactic| (
+  first
+  | (simp only [finish]; refine LogOK.snoc ‹LogOK _› ?_;
+     simp_all [Good, view, CPc.waitsConn, CPc.preInput, CPc.inLoop, CPc.readsConn]; try omega)
+  | (simp_all [finish, setInput, setConn, CPc.waitsConn, CPc.preInput, CPc.inLoop, CPc.readsConn];
+     try omega)))
 
 theorem range_split {l r : List Nat} {x n : Nat} (h : l ++ x :: r = List.range n) : x = l.length := by
   have h1 : (l ++ x :: r)[l.length]? = some x := by simp
@@ -77,5 +88,315 @@ theorem range_split {l r : List Nat} {x n : Nat} (h : l ++ x :: r = List.range n
     exact (Option.some.inj h1).symm
   · rw [List.getElem?_eq_none (by simpa using hge)] at h1
     cases h1
+
+
+theorem inv_cons_idle {s : State} (ok : Bool) (h : Inv s) (hc : s.cpc = .idle) : Inv (consStep s ok) := by
+  obtain ⟨h1, h2, h3, h4, h5, h5b, h6, h7, h8, h9, h10, h11, h12, h13, h14, h15, h16, h17⟩ := h
+  simp only [consStep, hc]
+  skip
+  all_goals
+    inv_fields
+    · simpa [finish] using h1
+    · simpa [finish] using h2
+    all_goals clear h2
+    all_goals inv_auto
+
+theorem inv_cons_r0 {s : State} (ok : Bool) (h : Inv s) (hc : s.cpc = .r0) : Inv (consStep s ok) := by
+  obtain ⟨h1, h2, h3, h4, h5, h5b, h6, h7, h8, h9, h10, h11, h12, h13, h14, h15, h16, h17⟩ := h
+  simp only [consStep, hc]
+  all_goals (try split)
+  all_goals
+    inv_fields
+    · simpa [finish] using h1
+    · simpa [finish] using h2
+    all_goals clear h2
+    all_goals inv_auto
+
+theorem inv_cons_r1 {s : State} (ok : Bool) (h : Inv s) (hc : s.cpc = .r1) : Inv (consStep s ok) := by
+  obtain ⟨h1, h2, h3, h4, h5, h5b, h6, h7, h8, h9, h10, h11, h12, h13, h14, h15, h16, h17⟩ := h
+  simp only [consStep, hc]
+  all_goals (try split)
+  all_goals
+    inv_fields
+    · simpa [finish] using h1
+    · simpa [finish] using h2
+    all_goals clear h2
+    all_goals inv_auto
+
+theorem inv_cons_r1w {s : State} (ok : Bool) (h : Inv s) (hc : s.cpc = .r1w) : Inv (consStep s ok) := by
+  obtain ⟨h1, h2, h3, h4, h5, h5b, h6, h7, h8, h9, h10, h11, h12, h13, h14, h15, h16, h17⟩ := h
+  simp only [consStep, hc]
+  all_goals (try split)
+  all_goals
+    inv_fields
+    · simpa [finish] using h1
+    · simpa [finish] using h2
+    all_goals clear h2
+    all_goals inv_auto
+
+theorem inv_cons_r2 {s : State} (ok : Bool) (h : Inv s) (hc : s.cpc = .r2) : Inv (consStep s ok) := by
+  obtain ⟨h1, h2, h3, h4, h5, h5b, h6, h7, h8, h9, h10, h11, h12, h13, h14, h15, h16, h17⟩ := h
+  simp only [consStep, hc]
+  all_goals (try split)
+  all_goals
+    inv_fields
+    · simpa [finish] using h1
+    · simpa [finish] using h2
+    all_goals clear h2
+    all_goals inv_auto
+
+theorem inv_cons_r3 {s : State} (ok : Bool) (h : Inv s) (hc : s.cpc = .r3) : Inv (consStep s ok) := by
+  obtain ⟨h1, h2, h3, h4, h5, h5b, h6, h7, h8, h9, h10, h11, h12, h13, h14, h15, h16, h17⟩ := h
+  simp only [consStep, hc]
+  all_goals (try split)
+  all_goals
+    inv_fields
+    · simpa [finish] using h1
+    · simpa [finish] using h2
+    all_goals clear h2
+    all_goals inv_auto
+
+theorem inv_cons_r3w {s : State} (ok : Bool) (h : Inv s) (hc : s.cpc = .r3w) : Inv (consStep s ok) := by
+  obtain ⟨h1, h2, h3, h4, h5, h5b, h6, h7, h8, h9, h10, h11, h12, h13, h14, h15, h16, h17⟩ := h
+  simp only [consStep, hc]
+  all_goals (try split)
+  all_goals
+    inv_fields
+    · simpa [finish] using h1
+    · simpa [finish] using h2
+    all_goals clear h2
+    all_goals inv_auto
+
+theorem inv_cons_r4 {s : State} (ok : Bool) (h : Inv s) (hc : s.cpc = .r4) : Inv (consStep s ok) := by
+  obtain ⟨h1, h2, h3, h4, h5, h5b, h6, h7, h8, h9, h10, h11, h12, h13, h14, h15, h16, h17⟩ := h
+  simp only [consStep, hc]
+  skip
+  all_goals
+    inv_fields
+    · simpa [finish] using h1
+    · simpa [finish] using h2
+    all_goals clear h2
+    all_goals inv_auto
+
+theorem inv_cons_e1 {s : State} (ok : Bool) (h : Inv s) (hc : s.cpc = .e1) : Inv (consStep s ok) := by
+  obtain ⟨h1, h2, h3, h4, h5, h5b, h6, h7, h8, h9, h10, h11, h12, h13, h14, h15, h16, h17⟩ := h
+  simp only [consStep, hc]
+  all_goals (try split)
+  all_goals
+    inv_fields
+    · simpa [finish] using h1
+    · simpa [finish] using h2
+    all_goals clear h2
+    all_goals inv_auto
+
+theorem inv_cons_e1w {s : State} (ok : Bool) (h : Inv s) (hc : s.cpc = .e1w) : Inv (consStep s ok) := by
+  obtain ⟨h1, h2, h3, h4, h5, h5b, h6, h7, h8, h9, h10, h11, h12, h13, h14, h15, h16, h17⟩ := h
+  simp only [consStep, hc]
+  all_goals (try split)
+  all_goals
+    inv_fields
+    · simpa [finish] using h1
+    · simpa [finish] using h2
+    all_goals clear h2
+    all_goals inv_auto
+
+theorem inv_cons_e2 {s : State} (ok : Bool) (h : Inv s) (hc : s.cpc = .e2) : Inv (consStep s ok) := by
+  obtain ⟨h1, h2, h3, h4, h5, h5b, h6, h7, h8, h9, h10, h11, h12, h13, h14, h15, h16, h17⟩ := h
+  simp only [consStep, hc]
+  all_goals (try split)
+  all_goals
+    inv_fields
+    · simpa [finish] using h1
+    · simpa [finish] using h2
+    all_goals clear h2
+    all_goals inv_auto
+
+theorem inv_cons_e3 {s : State} (ok : Bool) (h : Inv s) (hc : s.cpc = .e3) : Inv (consStep s ok) := by
+  obtain ⟨h1, h2, h3, h4, h5, h5b, h6, h7, h8, h9, h10, h11, h12, h13, h14, h15, h16, h17⟩ := h
+  simp only [consStep, hc]
+  all_goals (try split)
+  all_goals
+    inv_fields
+    · simpa [finish] using h1
+    · simpa [finish] using h2
+    all_goals clear h2
+    all_goals inv_auto
+
+theorem inv_cons_r5 {s : State} (ok : Bool) (h : Inv s) (hc : s.cpc = .r5) : Inv (consStep s ok) := by
+  obtain ⟨h1, h2, h3, h4, h5, h5b, h6, h7, h8, h9, h10, h11, h12, h13, h14, h15, h16, h17⟩ := h
+  simp only [consStep, hc]
+  split
+  next x rest hb =>
+    have hx : x = s.returned.length := by
+      have := h1 ▸ h2; rw [hb] at this; exact range_split this
+    inv_fields
+    · simp [finish, h1, hb]
+    · simpa [finish] using h2
+    · simp [finish]
+    all_goals clear h2
+    iterate 14 (simp_all [finish, CPc.waitsConn, CPc.preInput, CPc.inLoop, CPc.readsConn]; try omega)
+    · simp only [finish]
+      refine LogOK.snoc h17 ?_
+      simp [Good, view, hc, hb, hx]
+  next hb => exact absurd hb (h3 hc)
+
+theorem inv_cons {s : State} (ok : Bool) (h : Inv s) : Inv (consStep s ok) := by
+  cases hc : s.cpc
+  · exact inv_cons_idle ok h hc
+  · exact inv_cons_r0 ok h hc
+  · exact inv_cons_r1 ok h hc
+  · exact inv_cons_r1w ok h hc
+  · exact inv_cons_r2 ok h hc
+  · exact inv_cons_r3 ok h hc
+  · exact inv_cons_r3w ok h hc
+  · exact inv_cons_r4 ok h hc
+  · exact inv_cons_r5 ok h hc
+  · exact inv_cons_e1 ok h hc
+  · exact inv_cons_e1w ok h hc
+  · exact inv_cons_e2 ok h hc
+  · exact inv_cons_e3 ok h hc
+
+theorem inv_prod {s : State} (h : Inv s) : Inv (prodStep s) := by
+  obtain ⟨h1, h2, h3, h4, h5, h5b, h6, h7, h8, h9, h10, h11, h12, h13, h14, h15, h16, h17⟩ := h
+  unfold prodStep
+  split
+  next hp =>
+    inv_fields
+    · simp [h1]
+    · simp only [List.length_append, List.length_singleton, List.range_succ]; rw [← h2]
+    all_goals clear h2
+    all_goals simp_all
+    all_goals omega
+  next hp =>
+    inv_fields
+    · simpa [setInput] using h1
+    · simpa [setInput] using h2
+    all_goals clear h2
+    all_goals simp_all [setInput]
+    all_goals (cases hc : s.cpc <;> simp_all [CPc.waitsConn, CPc.preInput, CPc.inLoop, CPc.readsConn])
+
+theorem inv_timeout {s : State} (h : Inv s) : Inv (timeoutStep s) := by
+  obtain ⟨h1, h2, h3, h4, h5, h5b, h6, h7, h8, h9, h10, h11, h12, h13, h14, h15, h16, h17⟩ := h
+  unfold timeoutStep
+  split
+  next hct =>
+    simp only [canTimeout, Bool.and_eq_true, Bool.or_eq_true, decide_eq_true_eq, Bool.not_eq_true'] at hct
+    inv_fields
+    · simpa [finish] using h1
+    · simpa [finish] using h2
+    all_goals clear h2
+    all_goals (rcases hct with ⟨⟨hpc | hpc, htm⟩, hw⟩ <;> inv_auto)
+  next => exact ⟨h1, h2, h3, h4, h5, h5b, h6, h7, h8, h9, h10, h11, h12, h13, h14, h15, h16, h17⟩
+
+theorem inv_start {s : State} (op : Op) (h : Inv s) : Inv (startStep s op) := by
+  obtain ⟨h1, h2, h3, h4, h5, h5b, h6, h7, h8, h9, h10, h11, h12, h13, h14, h15, h16, h17⟩ := h
+  unfold startStep
+  split
+  next hc =>
+    cases op <;>
+    · inv_fields
+      · simpa using h1
+      · simpa using h2
+      all_goals clear h2
+      all_goals inv_auto
+  next => exact ⟨h1, h2, h3, h4, h5, h5b, h6, h7, h8, h9, h10, h11, h12, h13, h14, h15, h16, h17⟩
+
+theorem inv_conn_idle {s : State} (k : Conn) (h : Inv s) (hk : s.kpc = .idle) : Inv (connStep s k) := by
+  obtain ⟨h1, h2, h3, h4, h5, h5b, h6, h7, h8, h9, h10, h11, h12, h13, h14, h15, h16, h17⟩ := h
+  simp only [connStep, hk]
+  cases k <;> simp only []
+  all_goals
+    inv_fields
+    · simpa [setConn] using h1
+    · simpa [setConn] using h2
+    all_goals clear h2
+    all_goals (first | (inv_auto; done) | (cases hc : s.cpc <;> inv_auto))
+
+theorem inv_conn_cmid {s : State} (k : Conn) (h : Inv s) (hk : s.kpc = .connectMid) : Inv (connStep s k) := by
+  obtain ⟨h1, h2, h3, h4, h5, h5b, h6, h7, h8, h9, h10, h11, h12, h13, h14, h15, h16, h17⟩ := h
+  simp only [connStep, hk]
+  skip
+  all_goals
+    inv_fields
+    · simpa [setConn] using h1
+    · simpa [setConn] using h2
+    all_goals clear h2
+    all_goals (first | (inv_auto; done) | (cases hc : s.cpc <;> inv_auto))
+
+theorem inv_conn_fmid {s : State} (k : Conn) (h : Inv s) (hk : s.kpc = .finalMid) : Inv (connStep s k) := by
+  obtain ⟨h1, h2, h3, h4, h5, h5b, h6, h7, h8, h9, h10, h11, h12, h13, h14, h15, h16, h17⟩ := h
+  simp only [connStep, hk]
+  skip
+  all_goals
+    inv_fields
+    · simpa [setConn] using h1
+    · simpa [setConn] using h2
+    all_goals clear h2
+    all_goals (first | (inv_auto; done) | (cases hc : s.cpc <;> inv_auto))
+
+theorem inv_conn {s : State} (k : Conn) (h : Inv s) : Inv (connStep s k) := by
+  cases hk : s.kpc
+  · exact inv_conn_idle k h hk
+  · exact inv_conn_cmid k h hk
+  · exact inv_conn_fmid k h hk
+
+theorem inv_step {s : State} (c : Choice) (h : Inv s) : Inv (step s c) := by
+  cases c with
+  | prod => exact inv_prod h
+  | cons ok => exact inv_cons ok h
+  | timeout => exact inv_timeout h
+  | conn k => exact inv_conn k h
+  | start op => exact inv_start op h
+
+theorem inv_run (sched : List Choice) {s : State} (h : Inv s) : Inv (run s sched) := by
+  induction sched generalizing s with
+  | nil => exact h
+  | cons c cs ih => exact ih (inv_step c h)
+
+theorem inv_reach (sched : List Choice) : Inv (run init sched) := inv_run sched inv_init
+
+/-! ### asyncio variant: every step is a block of thread steps -/
+
+theorem run_append (s : State) (a b : List Choice) : run s (a ++ b) = run (run s a) b := by
+  simp [run, List.foldl_append]
+
+theorem consRun_is_run (fuel : Nat) (s : State) : ∃ l, Async.consRun fuel s = run s l := by
+  induction fuel generalizing s with
+  | zero => exact ⟨[], rfl⟩
+  | succ n ih =>
+    unfold Async.consRun
+    split
+    · exact ⟨[], rfl⟩
+    · obtain ⟨l, hl⟩ := ih (consStep s true)
+      exact ⟨.cons true :: l, by rw [hl]; rfl⟩
+
+theorem astep_is_run (s : State) (c : Choice) : ∃ l, Async.step s c = run s l := by
+  cases c with
+  | prod => exact ⟨[.prod, .prod], rfl⟩
+  | cons ok =>
+    obtain ⟨l, hl⟩ := consRun_is_run Async.fuel (consStep s ok)
+    exact ⟨.cons ok :: l, by simp only [Async.step]; rw [hl]; rfl⟩
+  | timeout => exact ⟨[.timeout], rfl⟩
+  | conn k =>
+    cases k with
+    | connect => exact ⟨[.conn .connect, .conn .connect], rfl⟩
+    | disconnect => exact ⟨[.conn .disconnect], rfl⟩
+    | final => exact ⟨[.conn .final, .conn .final], rfl⟩
+  | start op => exact ⟨[.start op], rfl⟩
+
+theorem arun_is_run (sched : List Choice) (s : State) : ∃ l, Async.run s sched = run s l := by
+  induction sched generalizing s with
+  | nil => exact ⟨[], rfl⟩
+  | cons c cs ih =>
+    obtain ⟨l1, h1⟩ := astep_is_run s c
+    obtain ⟨l2, h2⟩ := ih (Async.step s c)
+    refine ⟨l1 ++ l2, ?_⟩
+    rw [run_append, ← h1, ← h2]
+    rfl
+
+theorem inv_areach (sched : List Choice) : Inv (Async.run init sched) := by
+  obtain ⟨l, hl⟩ := arun_is_run sched init
+  rw [hl]
+  exact inv_reach l
 
 end Sio.Simple
